@@ -251,6 +251,8 @@ func ruleStrictConverge(c *Ctx, rule string, shorts ...string) {
 					op := effectiveOp(bf, true)
 					if op == token.LSS || op == token.GTR {
 						c.ok(rule, key, bf.cond.Pos(), "the two positions are exchanged only while they differ")
+					} else if readsBeforeWrites(l) {
+						c.ok(rule, key, bf.cond.Pos(), "the positions may meet, but each round reads both ends before it writes either (one parallel assignment): the middle letter exchanged with itself ends up complemented once")
 					} else {
 						c.bad(rule, key, bf.cond.Pos(), "the loop that exchanges and complements the two ends runs while "+pi.Comment+" "+op.String()+" "+pj.Comment+": when the positions meet, the middle letter of an odd-length sequence is exchanged with itself and complemented twice, i.e. left as it was — reverse-complementing once gives a wrong middle letter (twice still restores the input)")
 					}
@@ -261,6 +263,39 @@ func ruleStrictConverge(c *Ctx, rule string, shorts ...string) {
 	if n == 0 {
 		c.und(rule, "strictconverge", token.NoPos, "no converging two-position loop found in a RevComp method")
 	}
+}
+
+// readsBeforeWrites: all stores of the loop body sit in one block, and no memory is read there after the first of them.
+func readsBeforeWrites(l *ssaLoop) bool {
+	var blk *ssa.BasicBlock
+	for b := range l.body {
+		for _, ins := range b.Instrs {
+			if _, ok := ins.(*ssa.Store); ok {
+				if blk != nil && blk != b {
+					return false
+				}
+				blk = b
+			}
+			if _, ok := ins.(ssa.CallInstruction); ok {
+				return false
+			}
+		}
+	}
+	if blk == nil {
+		return false
+	}
+	stored := false
+	for _, ins := range blk.Instrs {
+		switch x := ins.(type) {
+		case *ssa.Store:
+			stored = true
+		case *ssa.UnOp:
+			if x.Op == token.MUL && stored {
+				return false
+			}
+		}
+	}
+	return true
 }
 
 // ---- posindex (C05, C07): a position is not passed where a raw subscript is expected ----
@@ -638,6 +673,55 @@ func ruleScoreZero(c *Ctx, rule string, fns []*ssa.Function) {
 		}
 		n := 0
 		var bad ssa.Value
+		// the accumulator is a variable shared with a closure that emits the pairs: what is stored into it
+		// before the traceback loop is what the first block starts from
+		capturedInit := func(al *ssa.Alloc) {
+			for _, r := range *al.Referrers() {
+				st, ok := r.(*ssa.Store)
+				if !ok || st.Addr != ssa.Value(al) || inLoop(st.Block()) != nil {
+					continue
+				}
+				n++
+				if k, ok := constIntVal(st.Val); !ok || k != 0 {
+					bad = st.Val
+				}
+			}
+		}
+		for _, an := range fn.AnonFuncs {
+			for _, b := range an.Blocks {
+				for _, ins := range b.Instrs {
+					st, ok := ins.(*ssa.Store)
+					if !ok {
+						continue
+					}
+					fa, ok := st.Addr.(*ssa.FieldAddr)
+					if !ok || fieldName(fa) != "score" || !strings.HasSuffix(typeString(fa.X.Type()), "featPair") {
+						continue
+					}
+					ld, ok := st.Val.(*ssa.UnOp)
+					if !ok || ld.Op != token.MUL {
+						continue
+					}
+					fv, ok := ld.X.(*ssa.FreeVar)
+					if !ok {
+						continue
+					}
+					for _, pb := range fn.Blocks {
+						for _, pi := range pb.Instrs {
+							if mc, ok := pi.(*ssa.MakeClosure); ok && mc.Fn == ssa.Value(an) {
+								for i, bv := range mc.Bindings {
+									if an.FreeVars[i] == fv {
+										if al, ok := bv.(*ssa.Alloc); ok {
+											capturedInit(al)
+										}
+									}
+								}
+							}
+						}
+					}
+				}
+			}
+		}
 		for _, b := range fn.Blocks {
 			for _, ins := range b.Instrs {
 				st, ok := ins.(*ssa.Store)
@@ -647,6 +731,12 @@ func ruleScoreZero(c *Ctx, rule string, fns []*ssa.Function) {
 				fa, ok := st.Addr.(*ssa.FieldAddr)
 				if !ok || fieldName(fa) != "score" || !strings.HasSuffix(typeString(fa.X.Type()), "featPair") {
 					continue
+				}
+				if ld, ok := st.Val.(*ssa.UnOp); ok && ld.Op == token.MUL {
+					if al, ok := ld.X.(*ssa.Alloc); ok {
+						capturedInit(al)
+						continue
+					}
 				}
 				// follow the accumulator to the phi of the traceback loop
 				v := st.Val
